@@ -3382,7 +3382,8 @@ class SetInstance(object):
                 select_list, attr_offsets = rentity._construct_select_clause_()
             else:
                 table_name = attr.table
-                select_list = [ 'ALL' ] + [ [ 'COLUMN', None, column ] for column in attr.columns ]
+                item_columns = attr.reverse_columns if attr.symmetric else attr.columns
+                select_list = [ 'ALL' ] + [ [ 'COLUMN', None, column ] for column in item_columns ]
                 attr_offsets = None
             sql_ast = [ 'SELECT', select_list, [ 'FROM', [ None, 'TABLE', table_name ] ],
                         where_list, [ 'LIMIT', 1 ] ]
